@@ -133,6 +133,21 @@ func importNamesOf(file *ast.File, pkg *packages.Package) util.ImportNames {
 			imports[pkgPath] = name
 		}
 	}
+	// A blank import was given the last element of its path as name because no other import
+	// bore that name; a package name learnt above may clash with it after the fact. The name
+	// belongs to the import that can be referred to.
+	for _, spec := range file.Imports {
+		if spec.Name == nil || spec.Name.Name != "_" {
+			continue
+		}
+		pkgPath := strings.ReplaceAll(spec.Path.Value, `"`, "")
+		for p, n := range imports {
+			if p != pkgPath && n == imports[pkgPath] {
+				imports[pkgPath] = "_"
+				break
+			}
+		}
+	}
 	return imports
 }
 
